@@ -82,7 +82,7 @@ def parse_call_line(line: str) -> gen_ctx.Ctx:
             ctx.scope[k] = int(v)
     for it in f[4:]:
         g = it.split("|")
-        if g[0] == "D":
+        if g[0] in ("D", "AL"):
             continue
         if g[0] == "P":
             name, mode, specs, val = g[1], g[2], g[3], g[4]
